@@ -490,14 +490,14 @@ func init() {
 			args = append(args, newton.HessianModification{Value: "Eigenvalue"})
 		}
 		if b.bit(4) {
-			is := &newton.InSitu{}
-			if b.bit(5) {
+			is := b.persist(&newton.InSitu{}).(*newton.InSitu)
+			if b.bit(5) && !b.later() {
 				t1, t2 := bufVec(0, n), bufScalar(0)
 				b.vec("InSitu.T1", "insitu", t1)
 				b.sca("InSitu.T2", "insitu", t2)
 				is.T1, is.T2 = t1, t2
 			}
-			if b.bit(6) {
+			if b.bit(6) && !b.later() {
 				id, a, bb := bufMat(0, n, n), bufMat(0, n, n), bufVec(0, n)
 				b.mat("InSitu.Inverse.Id", "insitu", id)
 				b.mat("InSitu.Inverse.A", "insitu", a)
@@ -514,7 +514,7 @@ func init() {
 			x := b.startVec("x0")
 			args := newtonArgs(b, 0)
 			f := func(x ConstVector) (MagicVector, error) { return o.root(x) }
-			b.run = func() error { _, err := newton.RunRoot(f, x, args...); return err }
+			b.run = func() error { r, err := newton.RunRoot(f, x, args...); b.ret(r); return err }
 		}})
 	register(&entryDef{id: 23, name: "newton.RunCrit", modelled: true, masks: newtonMasks, optStr: newtonStr, gen: newtonGen,
 		build: func(b *bld) {
@@ -522,7 +522,7 @@ func init() {
 			x := b.startVec("x0")
 			args := newtonArgs(b, 1)
 			f := func(x ConstVector) (MagicScalar, error) { return o.scalar(x) }
-			b.run = func() error { _, err := newton.RunCrit(f, x, args...); return err }
+			b.run = func() error { r, err := newton.RunCrit(f, x, args...); b.ret(r); return err }
 		}})
 	register(&entryDef{id: 24, name: "newton.RunMin", modelled: true, masks: newtonMasks, optStr: newtonStr, gen: newtonGen,
 		build: func(b *bld) {
@@ -530,7 +530,7 @@ func init() {
 			x := b.startVec("x0")
 			args := newtonArgs(b, 2)
 			f := func(x ConstVector) (MagicScalar, error) { return o.scalar(x) }
-			b.run = func() error { _, err := newton.RunMin(f, x, args...); return err }
+			b.run = func() error { r, err := newton.RunMin(f, x, args...); b.ret(r); return err }
 		}})
 
 	// ------------------------------------------------------------ 26 rprop.Run
@@ -762,8 +762,8 @@ func init() {
 				}})
 			}
 			if b.bit(6) {
-				is := &saga.InSitu{}
-				if b.bit(7) {
+				is := b.persist(&saga.InSitu{}).(*saga.InSitu)
+				if b.bit(7) && !b.later() {
 					t1 := NewDenseFloat64Vector(make([]float64, d))
 					for i := range t1 {
 						t1[i] = 0.25 + float64(i)
@@ -773,6 +773,6 @@ func init() {
 				}
 				args = append(args, is)
 			}
-			b.run = func() error { _, _, err := saga.Run(f, n, x, args...); return err }
+			b.run = func() error { r, _, err := saga.Run(f, n, x, args...); b.ret(r); return err }
 		}})
 }
